@@ -624,6 +624,43 @@ let names_mode (path : string) =
      done
    with End_of_file -> ())
 
+(* ---------------------------------------------------------------- time keys mode (C02 / C13)
+   input (hz -timekey):
+     tk <sec> <nsec> <key in the index> <sec> <nsec of what AssignIndex returned>
+     ts <probe sec> <probe nsec> <operator> <selected objects, one 0/1 per object> <sec:nsec of every object>
+   the model's time_key / key_time (Model/Norm.v) and the comparison of KEYS (Base.key_ltb / key_eqb) *)
+let timekey_mode (path : string) =
+  let ic = open_in path in
+  let tm s n = { t_sec = z_of_string s; t_nsec = z_of_string n } in
+  (try
+     while true do
+       let l = input_line ic in
+       match String.split_on_char ' ' l with
+       | [ "tk"; s; n; key; bs; bn ] ->
+           let t = tm s n in
+           let k = time_key t in
+           let b = key_time k in
+           let a = Printf.sprintf "%s %s %s" (string_of_z k) (string_of_z b.t_sec) (string_of_z b.t_nsec) in
+           let i = Printf.sprintf "%s %s %s" key bs bn in
+           let rg = if in_unixnano_range t then "in-range" else "out-of-range" in
+           if a = i then print_endline ("same tk " ^ rg) else print_endline ("DIFF tk " ^ s ^ " " ^ n ^ " impl[" ^ i ^ "] model[" ^ a ^ "]")
+       | "ts" :: ps :: pn :: op :: sel :: objs ->
+           let pk = KInt (time_key (tm ps pn)) in
+           let one o =
+             match String.split_on_char ':' o with
+             | [ s; n ] ->
+                 let k = KInt (time_key (tm s n)) in
+                 let lt = key_ltb k pk and eq = key_eqb k pk and gt = key_ltb pk k in
+                 let r = (match op with
+                   | "=" -> eq | "!=" -> not eq | "<" -> lt | "<=" -> lt || eq | ">" -> gt | ">=" -> gt || eq | _ -> false) in
+                 if r then "1" else "0"
+             | _ -> "?" in
+           let m = String.concat "" (List.map one objs) in
+           if m = sel then print_endline "same ts" else print_endline ("DIFF ts " ^ l ^ " model[" ^ m ^ "]")
+       | _ -> ()
+     done
+   with End_of_file -> ())
+
 (* ---------------------------------------------------------------- linearizability mode (C08)
    A concurrent history recorded on ONE handle (hz -lin): a sequential prefix in the usual trace
    format, the line "conc", then one line per concurrent call
@@ -739,6 +776,7 @@ let () =
   if Array.length Sys.argv > 2 && Sys.argv.(1) = "-lin" then (lin_mode Sys.argv.(2); exit 0);
   if Array.length Sys.argv > 2 && Sys.argv.(1) = "-snake" then (snake_mode Sys.argv.(2); exit 0);
   if Array.length Sys.argv > 2 && Sys.argv.(1) = "-names" then (names_mode Sys.argv.(2); exit 0);
+  if Array.length Sys.argv > 2 && Sys.argv.(1) = "-timekey" then (timekey_mode Sys.argv.(2); exit 0);
   if Array.length Sys.argv > 2 && Sys.argv.(1) = "-descr" then (descr_mode Sys.argv.(2); exit 0);
   if Array.length Sys.argv > 2 && Sys.argv.(1) = "-clone" then (clone_mode Sys.argv.(2); exit 0);
   let ic = if Array.length Sys.argv > 1 then open_in Sys.argv.(1) else stdin in
